@@ -204,3 +204,52 @@ def dual_oracle(prog, check_views=False) -> List[Tuple[str, str]]:
             elif g.shape != e.shape or not np.array_equal(g, e):
                 fails.append(("wrong-grad", f"t{n}.grad = {np.asarray(g).tolist()}, exact derivative = {e.tolist()}"))
     return fails
+
+
+# ------------------------------------------------------------------ helpers shared by C10/C12/C13/C14
+
+
+def run_all(prog):
+    """execute on real MyGrad; returns (executor, list of per-statement outcomes)"""
+    ex = progs.RealExec()
+    res = [ex.step(st) for st in prog]
+    return ex, res
+
+
+def grads_of(ex):
+    import numpy as np
+
+    return {n: (None if t.grad is None else np.array(t.grad)) for n, t in ex.v.items()}
+
+
+def same_grads(a, b, names=None):
+    import numpy as np
+
+    for n in (names if names is not None else a):
+        ga, gb = a.get(n), b.get(n)
+        if (ga is None) != (gb is None):
+            return f"t{n}.grad is {'None' if ga is None else ga.tolist()} in one run and {'None' if gb is None else gb.tolist()} in the other"
+        if ga is not None and (ga.shape != gb.shape or not np.array_equal(ga, gb)):
+            return f"t{n}.grad = {ga.tolist()} vs {gb.tolist()}"
+    return None
+
+
+def report(out, results, prop, oracle, shrinkable=True):
+    """turn per-program oracle failures into (shrunk) violations, one per failure class"""
+    seen = set()
+    for r in results:
+        for cls, msg in r["fails"]:
+            if cls in seen:
+                continue
+            seen.add(cls)
+
+            def pred(p, cls=cls):
+                return any(c == cls for c, _ in (oracle(p, 0) or []))
+
+            small = shrink(r["prog"], pred) if (shrinkable and cls != "ORACLE-CRASH") else r["prog"]
+            msgs = [m for c, m in (oracle(small, 0) or []) if c == cls] or [msg]
+            # a class ending in "!" names a complete failure family: its signature carries no program features
+            sig = f"{prop}|{cls[:-1]}" if cls.endswith("!") else f"{prop}|{cls}|{prog_signature(small)}"
+            out.violations.append(Violation(sig, f"{cls}: {msgs[0]}",
+                                            {"kind": "program", "program": small, "class": cls}))
+    return seen
